@@ -242,7 +242,7 @@ var props = map[string]*PropSpec{
 	},
 	"C10": {
 		Level:        "exploration",
-		Scens:        []ScenSpec{{ID: "C10", QuickRuns: 1500, QuickSecs: 60, ThoroughRuns: 150000, ThoroughSecs: 900}},
+		Scens:        []ScenSpec{{ID: "C10", QuickRuns: 4000, QuickSecs: 60, ThoroughRuns: 150000, ThoroughSecs: 900}},
 		CoverageRule: "each run = one seeded history (2-9 arrivals with priorities, clock targets on/around window ends and TTL expiries, stalls at the hand-off point and at every instrumented lock site) against the real StrategyBasedQueuePlugin + DelayedPriorityQueue on a fake clock; a run is non-trivial if more requests arrived than the window quota and at least one grant happened; distinct = distinct (task, yield point, clock target) schedule signatures among non-trivial runs",
 		Assumptions: []string{
 			"interleavings are explored at mutex acquire/release boundaries, the explicit hand-off yield point and every blocking operation, not at every memory access",
